@@ -1141,6 +1141,26 @@ package common
 //@ ufun fs_share(FSetP, int) int
 //@ fieldfn ForkSettings.CalcProposerShare = fs_share
 //@ define exq_epoch(ver int, reg RegI, n int, base int, lim int) int = ite(exq_count(ver, reg, n, exq_max(ver, reg, n, base)) >= lim, exq_max(ver, reg, n, base) + 1, exq_max(ver, reg, n, base))
+// deposits (C01/C03): the deposit index counter, registry growth and the deposit message root (assumed models, recorded)
+//@ ghost n_inc_depidx int
+//@ func (s BeaconState) IncrementDepositIndex() err
+//@   trusted
+//@   assigns ghost(n_inc_depidx)
+//@   ensures n_inc_depidx == old(n_inc_depidx) + 1
+//@ ghost n_add_val int
+//@ ghost add_val_pub Pub48T
+//@ ghost add_val_creds Root32
+//@ ghost add_val_bal int
+//@ func (s BeaconState) AddValidator(spec, pub, withdrawalCreds, balance) err
+//@   trusted
+//@   assigns ghost(n_add_val), ghost(add_val_pub), ghost(add_val_creds), ghost(add_val_bal)
+//@   ensures n_add_val == old(n_add_val) + 1 && add_val_pub == pub && add_val_creds == withdrawalCreds && add_val_bal == balance
+//@ sort DepDataT = DepositData
+//@ ufun deposit_msg_root(Pub48T, Root32, int) RootT
+//@ func (d *DepositData) MessageRoot() r
+//@   trusted
+//@   opt noalloc
+//@   ensures r == deposit_msg_root(d.Pubkey, d.WithdrawalCredentials, d.Amount)
 // the exit queue (initiate_validator_exit): the latest exit epoch among validators that have one, or the
 // activation-exit epoch of the current epoch when that is later; exq_count counts the exits at an epoch
 //@ defrec exq_max(ver int, reg RegI, i int, base int) int = ite(i <= 0, base, ite(v_exit(ver, reg_val(reg, i - 1)) != FAR_FUTURE_EPOCH && v_exit(ver, reg_val(reg, i - 1)) > exq_max(ver, reg, i - 1, base), v_exit(ver, reg_val(reg, i - 1)), exq_max(ver, reg, i - 1, base)))
@@ -1508,6 +1528,7 @@ package common
 //@   assigns ghost(n_set_lhdr), ghost(set_lhdr)
 //@   assigns ghost(n_set_prevjust), ghost(set_prevjust), ghost(n_set_curjust), ghost(set_curjust), ghost(n_set_fin), ghost(set_fin), ghost(n_set_jbits), ghost(set_jbits)
 //@   assigns ghost(n_viter), ghost(viter_pos), ghost(viter_reg), ghost(n_val_write), ghost(n_wd_write), ghost(n_set_exit), ghost(set_exit_v), ghost(set_exit_val), ghost(n_set_wd), ghost(set_wd_v), ghost(set_wd_val)
+//@   assigns ghost(n_inc_depidx), ghost(n_add_val), ghost(add_val_pub), ghost(add_val_creds), ghost(add_val_bal)
 
 //@ func PostSlotTransition(ctx, spec, epc, state, benv, validateResult) err
 //@   property C18 C03
@@ -1534,5 +1555,6 @@ package common
 //@   assigns ghost(n_set_mix), ghost(last_set_mix_epoch), ghost(last_set_mix)
 //@   assigns ghost(n_set_lhdr), ghost(set_lhdr)
 //@   assigns ghost(n_viter), ghost(viter_pos), ghost(viter_reg), ghost(n_val_write), ghost(n_wd_write), ghost(n_set_exit), ghost(set_exit_v), ghost(set_exit_val), ghost(n_set_wd), ghost(set_wd_v), ghost(set_wd_val)
+//@   assigns ghost(n_inc_depidx), ghost(n_add_val), ghost(add_val_pub), ghost(add_val_creds), ghost(add_val_bal)
 
 // END C18 generated
